@@ -12,6 +12,7 @@
   and `deadlock_free`, with witness theorems for the excluded block shapes.
 -/
 import Goloop.Proofs.C09Ser
+import Goloop.Proofs.C09Retry
 namespace Goloop.C09
 open Goloop.C09.Proofs
 
@@ -185,6 +186,57 @@ theorem idle_world_writer_not_serializable :
     (runSched txs (build txs) [1, 2, 2, 2, 0, 0, 0] (simInit 3 txs)).map (fun s => s.sts.map (fun st => st.loc.obs))
       = some [[some 34436], [], [some 2000]] ∧
     (runSeq 3 txs).2 = [[some 2000], [], [some 34234]] := by
+  decide
+
+/-! ### executor retry (GetSnapshot at start, run, Reset, run again) – Model/C09Retry
+
+`RSim` adds to `Sim` the events `snap i` (GetSnapshot with its real semantics per lock kind) and
+`reset i` (Reset to that snapshot; the program starts again).  `RInv` (Proofs/C09Retry) is the
+invariant of `Sim` (which yields `serializable`) plus the facts about the snapshot data.
+
+FULL STATEMENT (`serializable_with_retry`), NOT yet proved in full: for every supported block, every
+set of retrying transactions and every schedule `evs` of enabled `Ev`s,
+`runEv true txs retry (build txs) evs (rInit nacc txs) = some r` implies `RInv … r`, hence (as in
+`serializable`) once all are committed the world state and all observations equal `runSeq`, a
+retrying transaction counting as its final run.
+What is proved (`serializable_with_retry_partial`): an enabled `snap` or `reset` event preserves
+`RInv` – in particular a Reset puts back exactly the sequential pre-state of the transaction on
+exactly its accounts, for both lock kinds – and an enabled `act` event preserves the `Sim`
+invariant.  Missing: that `act` preserves the bookkeeping part of `RInv` (`start` = las.base). -/
+theorem serializable_with_retry_partial (txs : List Tx) (hs : Supported txs) (retry : List Bool) (init : List Nat)
+    (r : RSim) (h : RInv txs retry init r) (e : Ev)
+    (hen : enabledEv true txs retry (build txs) r e = true) :
+    Inv txs init (fireEv txs (build txs) r e).sim ∧
+    ((∀ i, e ≠ .act i) → RInv txs retry init (fireEv txs (build txs) r e)) := by
+  cases e with
+  | snap i =>
+    have := rinv_snap hs h hen
+    exact ⟨this.inv, fun _ => this⟩
+  | reset i =>
+    have := rinv_reset hs h hen
+    exact ⟨this.inv, fun _ => this⟩
+  | act i =>
+    refine ⟨?_, fun hne => absurd rfl (hne i)⟩
+    simp only [enabledEv, Bool.and_eq_true, decide_eq_true_eq] at hen
+    exact inv_fire hs h.inv hen.1.1 hen.1.2
+
+/-- WITNESS for the guard the proof relies on (seeded change C09-5): if the snapshot of the real
+    state is taken BEFORE waiting for the predecessors (`guarded = false`), the block
+    [tx0: write-lock account 0, read it, write it] [tx1: world write lock, retrying] has a schedule
+    of enabled events – tx1 snapshots first, tx0 runs and commits, tx1 runs, resets, runs again –
+    after which tx0's write is lost: tx1 reads 1000 instead of 17221 and the final state is
+    [17322, 311809] instead of the sequential [293079, 275420].  With the guard the same schedule is
+    not admissible (the snapshot event is not enabled), and the admissible one gives the sequential result. -/
+theorem retry_snapshot_before_wait_not_serializable :
+    let txs : List Tx := [⟨[⟨some 0, .write⟩], [.r 0, .w 0]⟩, ⟨[⟨none, .write⟩], [.r 0, .w 0, .w 1]⟩]
+    let early : List Ev := [.snap 1, .act 0, .act 0, .act 0, .act 1, .act 1, .act 1, .reset 1, .act 1, .act 1, .act 1, .act 1]
+    let late : List Ev := [.act 0, .act 0, .act 0, .snap 1, .act 1, .act 1, .act 1, .reset 1, .act 1, .act 1, .act 1, .act 1]
+    (runEv false txs [false, true] (build txs) early (rInit 2 txs)).map (fun r => (r.sim.real, r.sim.sts.map (fun st => st.loc.obs)))
+      = some ([17322, 311809], [[some 1000], [some 1000]]) ∧
+    (runEv true txs [false, true] (build txs) early (rInit 2 txs)).map (fun r => r.sim.real) = none ∧
+    (runEv true txs [false, true] (build txs) late (rInit 2 txs)).map (fun r => (r.sim.real, r.sim.sts.map (fun st => st.loc.obs)))
+      = some (runSeq 2 txs) ∧
+    runSeq 2 txs = ([293079, 275420], [[some 1000], [some 17221]]) := by
   decide
 
 end Goloop.C09
